@@ -2737,13 +2737,15 @@ template< size_t L> inline
    FixedString< L>& FixedString< L>::replaceImpl( size_t pos1, size_t count1,
       const char* str, size_t pos2, size_t count2) noexcept
 {
-   if (pos1 >= mLength)
+   // pos1 == mLength is valid (appends), like in std::string
+   if (pos1 > mLength)
       return *this;
    size_t  copy_len = count2;
-   if (pos1 + count1 >= mLength)
+   // count1 can be max(64bit), so we cannot calc pos1 + count1
+   if (count1 >= mLength - pos1)
    {
       // replace from pos until the end of the string
-      if (pos1 + copy_len > L)
+      if (copy_len > L - pos1)
          copy_len = L - pos1;
       std::memcpy( &mString[ pos1], &str[ pos2], copy_len);
       mLength = pos1 + copy_len;
@@ -2758,11 +2760,16 @@ template< size_t L> inline
       // str.length() == 5
       // make space:  goodbyex....farewell
       // copy:        goodbye and farewell
-      std::memmove( &mString[ pos1 + copy_len - count1 + 1],
-         &mString[ pos1 + count1],
-         mLength - pos1 - count1);
+      // both the new text and the moved rest are cut at the end of the buffer
+      if (copy_len > L - pos1)
+         copy_len = L - pos1;
+      size_t  rest_len = mLength - pos1 - count1;
+      if (rest_len > L - pos1 - copy_len)
+         rest_len = L - pos1 - copy_len;
+      std::memmove( &mString[ pos1 + copy_len], &mString[ pos1 + count1],
+         rest_len);
       std::memcpy( &mString[ pos1], &str[ pos2], copy_len);
-      mLength = mLength - count1 + copy_len;
+      mLength = pos1 + copy_len + rest_len;
       mString[ mLength] = '\0';
    } else // count1 > copy_len
    {
